@@ -71,4 +71,19 @@ structure MGoodD (c : Codec (E2EM.MSSlab r) β) (T : Nat) (D : DigestFn (r + 1))
   nodang : ∀ id ∈ x.1.1.refIds, (AList.find? x.1.2.created id).isSome
   rep : E2EM.MRep c x.2 x.1.1 (live x.1) x.1.2.ctr
 
+/-- The answer of the request `op` issued in state `st` is the dictionary's answer (C02): `Set`
+    returns the value bound to the key before (or is refused with the collision-limit error for a
+    key that is absent), `Remove` returns the value bound to the key (key-not-found iff absent),
+    `PopIterate` returns every pair, last to first. -/
+def AnswerOk (cfg : MCfg) (st : OMap r × Ctx) : E2EM.MOp → Prop
+  | .set k v =>
+    (∃ m' c', st.1.set cfg k v st.2 = .ok (dictLookup st.1.toList k, m', c')) ∨
+    (st.1.set cfg k v st.2 = .error .collisionLimit ∧ dictLookup st.1.toList k = none)
+  | .remove k =>
+    match dictLookup st.1.toList k with
+    | none => st.1.remove cfg k st.2 = .error .keyNotFound
+    | some w => ∃ k0 m' c', st.1.remove cfg k st.2 = .ok (k0, w, m', c') ∧ k0.same k = true
+  | .popIterate => (st.1.popIterate st.2).1 = st.1.toList.reverse
+  | .setType _ => True
+
 end Atree.E2EMD
